@@ -59,7 +59,7 @@ class Chooser:
         if k == 'add_input':
             return {'a': 'add_gate', 'l': pick(labels) if bad and labels else self.new_label(), 't': 'INPUT', 'ops': []}
         if k == 'add_inputs':
-            return {'a': 'add_inputs', 'q': [self.new_label() for _ in range(rng.randint(1, 3))]}
+            return {'a': 'add_inputs', 'q': [self.new_label() for _ in range(rng.randint(1, 3))] + ([pick(labels)] if bad and labels else [])}
         if k == 'add_gate':
             t = rng.choice(TYPES)
             n = 0 if t in gen.NULLARY else 1 if t in gen.UNARY else 2 if t in gen.BINARY else rng.choice([2, 2, 3, 4])
@@ -102,10 +102,15 @@ class Chooser:
                    'outs': [x for x in gs if rng.random() < 0.7]}
             if rng.random() < 0.3:
                 act['ins'] = [pick(labels) for _ in range(rng.randint(0, 2))]
+            if bad and rng.random() < 0.6:      # a label that names no gate among the members / outputs / inputs
+                which = rng.choice(['gs', 'outs', 'ins'])
+                act[which] = list(act.get(which, [])) + ['missing']
             return act
         if k == 'make_block_from_slice':
             outs_ = [pick(labels) for _ in range(rng.randint(1, 2))]
             insl = [l for l in labels if rng.random() < 0.5]
+            if bad:
+                (insl if rng.random() < 0.5 else outs_).append('missing')
             return {'a': 'make_block_from_slice', 'n': f'blk{self.new_label()}', 'ins': insl, 'outs': outs_}
         if k == 'delete_block':
             return {'a': 'delete_block', 'n': pick(blocks)} if blocks else {'a': 'mark_as_output', 'l': pick(labels)}
